@@ -74,7 +74,7 @@ theorem approximate_spec (pts path : Array (Pos S)) (b : Bez S) (h1 : 1 ≤ pts.
     rw [extract_one_toList, hL, hR, chainOf]
   refine ⟨path.push p0 ++ (approxOut A (chainOf A pts.toList)).toArray,
     { b with left := l', right := r', mid := mid' }, ?_, ⟨p0, hp0, rfl⟩, hl, hr, hm, rfl⟩
-  simp only [approximate, hs, getC_ok hp0, hneed, hchain, bind, Except.bind]
+  simp only [approximate, hs, getC_ok_some hp0, hneed, hchain, bind, Except.bind]
   rfl
 
 /-- the number of vertices a flat leaf emits, `pts.size = 1` included -/
